@@ -36,6 +36,8 @@ fn gcd(expr1: i64, expr2: i64) -> i64 {
     let mut a = expr1;
     let mut b = expr2;
     while b != 0 {
+        #[cfg(feature = "verif_hooks")]
+        crate::verif_hooks::tick();
         let remainder = a % b;
         a = expr2;
         b = remainder;
@@ -51,6 +53,8 @@ fn lcm(expr1: i64, expr2: i64) -> i64 {
 }
 
 pub fn eval(expr: Node) -> Result<i64, Box<dyn error::Error>> {
+    #[cfg(feature = "verif_hooks")]
+    crate::verif_hooks::tick();
     use self::Node::*;
     match expr {
         Number(i) => Ok(i),
@@ -70,6 +74,8 @@ pub fn eval(expr: Node) -> Result<i64, Box<dyn error::Error>> {
             if sub_result >= 0 {
                 let mut factorial_result = 1;
                 for i in 2..=(sub_result as usize) {
+                    #[cfg(feature = "verif_hooks")]
+                    crate::verif_hooks::tick();
                     factorial_result *= i as i64;
                 }
                 Ok(factorial_result)
@@ -115,6 +121,8 @@ pub fn eval(expr: Node) -> Result<i64, Box<dyn error::Error>> {
             if args.len() > 1 {
                 let mut result: Option<i64> = None;
                 for arg in <Vec<Node> as Clone>::clone(&args).into_iter() {
+                    #[cfg(feature = "verif_hooks")]
+                    crate::verif_hooks::tick();
                     let right_art = eval(arg)?;
                     result = result
                         .map(|left_arg| Some(gcd(left_arg, right_art)))
@@ -132,6 +140,8 @@ pub fn eval(expr: Node) -> Result<i64, Box<dyn error::Error>> {
             if args.len() > 1 {
                 let mut result: Option<i64> = None;
                 for arg in <Vec<Node> as Clone>::clone(&args).into_iter() {
+                    #[cfg(feature = "verif_hooks")]
+                    crate::verif_hooks::tick();
                     let right_art = eval(arg)?;
                     result = result
                         .map(|left_arg| Some(lcm(left_arg, right_art)))
@@ -149,6 +159,8 @@ pub fn eval(expr: Node) -> Result<i64, Box<dyn error::Error>> {
             if args.len() > 1 {
                 let mut result = i64::MIN;
                 for arg in <Vec<Node> as Clone>::clone(&args).into_iter() {
+                    #[cfg(feature = "verif_hooks")]
+                    crate::verif_hooks::tick();
                     result = eval(arg).unwrap().min(result);
                 }
                 Ok(result)
@@ -163,6 +175,8 @@ pub fn eval(expr: Node) -> Result<i64, Box<dyn error::Error>> {
             if args.len() > 1 {
                 let mut result = i64::MAX;
                 for arg in <Vec<Node> as Clone>::clone(&args).into_iter() {
+                    #[cfg(feature = "verif_hooks")]
+                    crate::verif_hooks::tick();
                     result = eval(arg).unwrap().max(result);
                 }
                 Ok(result)
@@ -176,6 +190,8 @@ pub fn eval(expr: Node) -> Result<i64, Box<dyn error::Error>> {
         Avg(args) => {
             let mut result = 0;
             for arg in <Vec<Node> as Clone>::clone(&args).into_iter() {
+                #[cfg(feature = "verif_hooks")]
+                crate::verif_hooks::tick();
                 result += eval(arg).unwrap();
             }
             let len = args.len() as i64;
@@ -184,6 +200,8 @@ pub fn eval(expr: Node) -> Result<i64, Box<dyn error::Error>> {
         Med(args) => {
             let mut results = vec![];
             for arg in <Vec<Node> as Clone>::clone(&args).into_iter() {
+                #[cfg(feature = "verif_hooks")]
+                crate::verif_hooks::tick();
                 results.push(eval(arg).unwrap());
             }
             results.sort_by(|a, b| a.partial_cmp(b).unwrap());
